@@ -227,5 +227,22 @@ class SimLoop(base_events.BaseEventLoop):
     async def getaddrinfo(self, *a, **kw):  # pragma: no cover
         raise SimHarnessError("getaddrinfo reached: a real network call escaped")
 
-    def run_in_executor(self, *a, **kw):  # pragma: no cover
-        raise SimHarnessError("run_in_executor reached: a thread escaped the simulator")
+    def run_in_executor(self, executor, func, *args):
+        """A simulated worker thread: the job runs inside the loop thread at a later, drawn instant (0, one epsilon or 1/64 s
+        of virtual time after the call) and its result reaches the future the way a real executor's would. No real thread is
+        started, so the interleaving stays a function of the run's PRNG."""
+        fut = self.create_future()
+        delays = (0.0, 2.0 ** -20, 2.0 ** -6)
+        delay = delays[self.tie(len(delays))] if self.tie is not None else 0.0
+        self.executor_jobs = getattr(self, "executor_jobs", 0) + 1
+
+        def job():
+            if fut.cancelled():
+                return
+            try:
+                fut.set_result(func(*args))
+            except BaseException as e:  # noqa: BLE001 - handed to the awaiting coroutine, as concurrent.futures does
+                fut.set_exception(e)
+
+        self.call_later(delay, job)
+        return fut
